@@ -221,8 +221,10 @@ func runCheck(args []string, repo, specs, tier string, jobs int, verbose bool) i
 			}
 		}
 		if stale {
-			fmt.Println("contract files are stale with respect to the code (infrastructure error, no verdict)")
-			return 2
+			// The contracts name loops, statements or functions that the code no longer has: the
+			// obligations they carry cannot be generated, so the property is not established for this
+			// tree. Reported as undischarged obligations (below), not as an infrastructure error.
+			fmt.Println("NOTE: some contracts no longer match the code; their obligations are reported as not discharged")
 		}
 	}
 
@@ -319,8 +321,8 @@ func runCheck(args []string, repo, specs, tier string, jobs int, verbose bool) i
 		// unsupported constructs etc.: conservative — a failed obligation without input
 		nViol++
 		f := filepath.Join(replayDir, fmt.Sprintf("%s-err-%d.txt", prop, nViol))
-		os.WriteFile(f, []byte("engine error (construct outside the verified subset or contract not elaborable):\n"+e+"\n"), 0o644)
-		violLines = append(violLines, fmt.Sprintf("VIOLATION property=%s replay=%s obligation=engine-error no-failing-input-found", prop, f))
+		os.WriteFile(f, []byte("obligation could not be generated (construct outside the verified subset, or a contract that no longer matches the code it annotates):\n"+e+"\n"), 0o644)
+		violLines = append(violLines, fmt.Sprintf("VIOLATION property=%s replay=%s obligation=%q no-failing-input-found", prop, f, "contract-mismatch: "+firstLine(e)))
 	}
 	for _, v := range boundedViol {
 		nViol++
@@ -431,4 +433,14 @@ func writeReplay(dir, prop string, n int, r *OblResult, repo, verifDir string, p
 	}
 	os.WriteFile(f, []byte(sb.String()), 0o644)
 	return fmt.Sprintf("VIOLATION property=%s replay=%s obligation=%q%s", prop, f, r.O.Fn+" :: "+r.O.Name, suffix)
+}
+
+func firstLine(s string) string {
+	if i := strings.IndexByte(s, '\n'); i >= 0 {
+		s = s[:i]
+	}
+	if len(s) > 160 {
+		s = s[:160]
+	}
+	return s
 }
